@@ -210,6 +210,19 @@ pub fn conv_werr(e: &TagWriterError) -> WErrV {
     }
 }
 
+thread_local! {
+    /// set while a library call runs under catch_unwind: its panics are recorded, not printed
+    pub static QUIET: std::cell::Cell<bool> = std::cell::Cell::new(false);
+}
+
+/// catch_unwind for calls into the library under test.
+fn guarded<R>(f: impl FnOnce() -> R) -> std::thread::Result<R> {
+    QUIET.with(|q| q.set(true));
+    let r = catch_unwind(AssertUnwindSafe(f));
+    QUIET.with(|q| q.set(false));
+    r
+}
+
 fn panic_msg(p: Box<dyn std::any::Any + Send>) -> String {
     if let Some(s) = p.downcast_ref::<&str>() {
         s.to_string()
@@ -277,7 +290,7 @@ pub fn run_reader_t<T: Spec>(s: &ReaderSetup) -> RTrace {
     let mut step_cap_hit = false;
 
     let do_next = |it: &mut TagIterator<SimReader, T>| -> Ev {
-        match catch_unwind(AssertUnwindSafe(|| {
+        match guarded((|| {
             let r = it.next();
             let off = it.last_emitted_tag_offset();
             (r, off)
@@ -289,7 +302,7 @@ pub fn run_reader_t<T: Spec>(s: &ReaderSetup) -> RTrace {
         }
     };
     let do_recover = |it: &mut TagIterator<SimReader, T>| -> Ev {
-        match catch_unwind(AssertUnwindSafe(|| it.try_recover())) {
+        match guarded((|| it.try_recover())) {
             Ok(Ok(())) => Ev::RecoverOk,
             Ok(Err(e)) => Ev::RecoverErr(conv_err(&e)),
             Err(p) => Ev::Panic(panic_msg(p)),
@@ -517,7 +530,7 @@ pub fn run_writer_t<T: Spec>(ops: &[WOp], wscript: &WScript, finish: bool) -> WT
     let mut delivered_after = Vec::new();
     let mut panic = None;
     for op in ops {
-        let r = catch_unwind(AssertUnwindSafe(|| match op {
+        let r = guarded((|| match op {
             WOp::Write(t, o) => {
                 let tag = from_tagv::<T>(t);
                 match o {
@@ -543,14 +556,14 @@ pub fn run_writer_t<T: Spec>(ops: &[WOp], wscript: &WScript, finish: bool) -> WT
     let mut into_inner = None;
     let sink = if panic.is_none() && finish {
         // `into_inner` consumes the writer; on failure the sink is lost with it, so take a look first
-        let r = catch_unwind(AssertUnwindSafe(|| w.flush()));
+        let r = guarded((|| w.flush()));
         match r {
             Ok(Ok(())) => into_inner = Some(Ok(())),
             Ok(Err(e)) => into_inner = Some(Err(conv_werr(&e))),
             Err(p) => panic = Some(panic_msg(p)),
         }
         // flush() is what into_inner() runs first; calling into_inner() now returns the sink
-        match catch_unwind(AssertUnwindSafe(move || w.into_inner())) {
+        match guarded((move || w.into_inner())) {
             Ok(Ok(s)) => Some(s),
             Ok(Err(_)) | Err(_) => None,
         }
@@ -612,7 +625,7 @@ pub fn run_async_t<T: Spec>(input: &Arc<Vec<u8>>, buffered: &[u64], script: &ASc
     }
     let src = std::rc::Rc::new(std::cell::RefCell::new(SimAsyncRead::new(input.clone(), script.clone(), deferred.clone())));
 
-    let outcome = catch_unwind(AssertUnwindSafe(|| {
+    let outcome = guarded((|| {
         if use_stream {
             let it: TagIteratorAsync<Shared, T> = TagIteratorAsync::new(Shared(src.clone()), &bufd);
             let mut st = Box::pin(it.into_stream());
